@@ -113,6 +113,30 @@ def check(ctx):
                 res['runs'].append(runpass.analyse_run(c, drv, props=['C12']))
         finally:
             drv.close()
+    if prop in ('C01', 'C02'):
+        # rare sites: GP best on the boundary, ABC scout, BHA double exchange
+        import runlevel, random as _random
+        rng = _random.Random(seed * 17 + 3)
+        pool = runlevel.gen_configs('thorough', seed + 55)
+        extra = []
+        for c in [c for c in pool if c['kind'] == 'GP'][:25 if tier == 'quick' else 80]:
+            c = dict(c, hook='observer', objective=rng.choice(['boundary', 'signchange', 'negative']), box='offset')
+            c['lb'], c['ub'] = runlevel.make_box(rng, rng.choice(['offset', 'narrow', 'unit']), c['n_vars'])
+            extra.append(c)
+        for c in [c for c in pool if c['kind'] == 'ABC'][:20 if tier == 'quick' else 80]:
+            c = dict(c, hook='observer', n_iter=8, n_agents=rng.choice([2, 3, 5]), hyper={'n_trials': 1},
+                     objective=rng.choice(['boundary', 'signchange', 'positive', 'sphere']))
+            extra.append(c)
+        for c in [c for c in pool if c['kind'] == 'BHA'][:20 if tier == 'quick' else 80]:
+            c = dict(c, hook='observer', n_iter=8, n_agents=rng.choice([5, 8]), objective=rng.choice(['sphere', 'rastrigin', 'weighted']), box='wide')
+            c['lb'], c['ub'] = runlevel.make_box(rng, 'wide', c['n_vars'])
+            extra.append(c)
+        drv = common.Driver()
+        try:
+            for c in extra:
+                res['runs'].append(runpass.analyse_run(c, drv, props=[prop]))
+        finally:
+            drv.close()
     if prop == 'C07':
         # replacements by copy are rare events (ABC scout accepted, HS replace-worst, BHA exchange, GP
         # reproduction): extra runs of exactly those kinds, long enough for the event to happen
